@@ -6,7 +6,7 @@ from . import oracles as O
 from . import small as SM
 
 CONFIG = {
-    'C01': dict(streams=[('td_wf', 1040), ('td_coarse', 360)], keep='om'),
+    'C01': dict(streams=[('td_class', 480), ('td_wf', 1040), ('td_coarse', 360)], keep='om'),
     'C02': dict(streams=[('td_exact', 880), ('td_wf', 480)], keep='ov'),
     'C03': dict(streams=[('bu_wf', 1040), ('mixed_wf', 360)], keep='ovm'),
     'C04': dict(streams=[('bu_wf', 1200), ('mixed_wf', 160)], keep='ov'),
@@ -19,7 +19,7 @@ CONFIG = {
     'C17': dict(streams=[('td_wf', 480), ('bu_wf', 480), ('fail_wf', 240), ('panic', 160), ('failstamp', 160)], keep='v', extra='tracker'),
     'C18': dict(streams=[('fail_wf', 800), ('fail_bu', 500), ('fail_mixed', 300)], keep='eov'),
     'C19': dict(streams=[('panic', 880), ('inj_hidden', 200), ('inj_overlap', 200), ('inj_cycle', 200)], keep='od'),
-    'C20': dict(streams=[('td_wf', 480), ('bu_wf', 240), ('roles', 640)], keep='o'),
+    'C20': dict(streams=[('td_class', 320), ('td_wf', 480), ('bu_wf', 240), ('roles', 640)], keep='o'),
 }
 THOROUGH_FACTOR = 12
 
@@ -41,7 +41,7 @@ def make_case(rng, stream, big=False):
     exact = stream == 'td_exact'
     fail = stream in ('fail_wf', 'failstamp', 'fail_bu', 'fail_mixed')
     coarse = stream == 'td_coarse'
-    p = P.gen_wf_program(rng, nt, exact_only=exact, allow_fail=fail, coarse_writers=coarse)
+    p = P.gen_wf_program(rng, nt, exact_only=exact, allow_fail=fail, coarse_writers=coarse, norepeat=(stream == 'td_class'))
     mode = 'td'
     if stream in ('bu_wf', 'fail_bu'): mode = 'bu'
     if stream == 'fail_mixed': mode = 'mixed'
@@ -199,6 +199,12 @@ def run(prop, tier, seed, replay=None):
             continue
         sessions = P.parse_obs(['C 0'] + impl[i])[0]
         dist['streams'][stream] = dist['streams'].get(stream, 0) + 1
+        try:
+            wfp_, static_ = P.in_proved_class(prog)
+        except Exception:
+            wfp_, static_ = False, False
+        if wfp_: dist['in_theorem_class_WFP'] = dist.get('in_theorem_class_WFP', 0) + 1
+        if static_: dist['in_static_class_WFP_WFO'] = dist.get('in_static_class_WFP_WFO', 0) + 1
         nx = 0
         for s in sessions:
             dist['sessions'] += 1
